@@ -35,6 +35,15 @@ Theorem c34_accept : forall cfg_proto cfg_local cfg_remotes s,
 Proof. exact accept_spec. Qed.
 Print Assumptions c34_accept.
 
+(* from the RAW configuration: if it names remote peers and the controller can be constructed,
+   an offered stream's remote peer is one of the named entries (blank / invalid entries make
+   construction fail, they are never dropped into "no remote filter") *)
+Theorem c34_accept_named_remotes : forall decode_peer cfg_proto cfg_local remote_strs s,
+  remote_strs <> [] -> accept_from_config decode_peer cfg_proto cfg_local remote_strs s = 1%nat ->
+  exists x, In x remote_strs /\ decode_peer x = Some (s_remote s).
+Proof. exact accept_named_remotes. Qed.
+Print Assumptions c34_accept_named_remotes.
+
 (* RPC server: protocol among the configured ones, local peer (in its string form) among the served ones *)
 Theorem c34_srpc_server : forall cfg_protos cfg_peer_strs disable_establish_link s local_str,
   srpc_offers (SrpcCfg cfg_protos cfg_peer_strs disable_establish_link) s local_str = true <->
